@@ -115,25 +115,32 @@ class Harness:
 
             def timed_out(self_, signum, frame):
                 # pkgcore's own 10 s alarm on the liveness probe fired.  Why?  If the daemon is still busy (runnable,
-                # waiting for a helper of its own, stopped, or with the request / its answer still sitting in a pipe)
-                # the box is merely slower than the alarm: the step is discarded.  If the daemon is gone or sits idle
-                # on an empty command pipe, the probe was never going to be answered: that is the protocol's doing
-                # and the step is judged as usual.
+                # waiting for a helper of its own, stopped, or with the request still unread in the command pipe) the
+                # box is merely slower than the alarm: the step is discarded.  If the daemon is gone or sits idle on an
+                # empty command pipe, it has consumed the probe and was never going to answer it: that is the
+                # protocol's doing and the step is judged as usual.
                 cause = "daemon-busy"
                 try:
                     pid = self_.pid
-                    if not pid or ebd.proc_state(pid) is None:
+                    tr_ = ebd.trace_of(self_)
+                    last_busy = getattr(tr_, "last_busy", None) if tr_ is not None else None
+                    if not pid or ebd.proc_state(pid) in (None, "Z", "X"):
                         cause = "daemon-gone"
-                    else:
-                        blocked, _d = ebd.daemon_blocked_reading(pid)
-                        if blocked:
-                            diag = ebd.stall_diagnostics(pid, self_)
-                            reply_empty = ebd.fionread(self_.ebd_read.fileno()) == 0
-                            if (not diag["reads_elsewhere"] and diag["reads_on_command_pipe"]
-                                    and diag["command_pipe_unread"] == 0 and reply_empty):
-                                cause = "daemon-idle"
+                    elif not ebd.daemon_busy(pid, self_):
+                        cause = "daemon-idle"
+                    # the state NOW may be a fraction of a second younger than the alarm (a daemon that answers at
+                    # 10.001 s looks idle here): what counts is whether it was still busy shortly before
+                    if cause != "daemon-busy" and last_busy is not None and time.monotonic() - last_busy < 3.0:
+                        cause = "daemon-busy"
                 except Exception:
                     cause = "daemon-busy"
+                if os.environ.get("VT_C35_DEBUG"):
+                    try:
+                        tr = ebd.trace_of(self_)
+                        ctx.note("alarm cause=%s pid=%r diag=%r tail=%r" % (cause, self_.pid, ebd.stall_diagnostics(self_.pid, self_) if self_.pid else None,
+                                 [(k, p[:60]) for _, _, k, p in tr.events[-6:]] if tr else None))
+                    except Exception as e:
+                        ctx.note("alarm debug failed %r" % (e,))
                 ctx.count("pkgcore_liveness_alarm:" + cause)
                 if cause == "daemon-busy":
                     Harness.timeouts += 1
